@@ -104,6 +104,15 @@ BUILT = {
         note='Trusted: TLC, numpy. Bounded: bit depths 1..24, N <= 3 dimensions, mosaics up to 6x8; white-balance helpers are not part of the statement and '
              'are not checked.',
         technique='TLA+ spec (Sensor.tla: pipeline machine, index-map laws, colour-site map) checked by TLC; emitted configurations replayed into prysm.detector / prysm.bayer'),
+    'C11': dict(
+        spec='ZernikeIndex.tla',
+        text='ZernikeIndex.tla defines Noll, Fringe, ANSI and the Code V XY index constructively with integers only (group numbers by their defining '
+             'inequalities, closed-form integer inverses) and walks every index up to J in parallel blocks; in every state TLC checks the defining '
+             'inequalities of the carried group numbers, validity of the order, inverse(forward(j)) = j, the parity / ordering rules, and - for the current '
+             'radial order - that every valid (n, m) is hit by its inverse index and maps back (surjectivity). The exported table (one row per index, no '
+             'sampling) is compared with noll_to_nm, fringe_to_nm, nm_to_fringe, ansi_j_to_nm, nm_to_ansi_j and xy_j_to_mn.',
+        note='Trusted: TLC. Bounded: every index 1..20000 (quick) / 1..100000 (thorough), radial orders up to 199 / 446; xy_j_to_mn compared up to index 3000 / 20000.',
+        technique='TLA+ spec (ZernikeIndex.tla, integer-only constructive definitions) checked by TLC for every index; exported table compared exhaustively with the prysm index functions'),
 }
 
 NOT_BUILT_REASON = 'not built yet in this round (specification planned in DESIGN.md section 4; never decided by another technique)'
